@@ -181,6 +181,28 @@ func runHistory(h []histStep, fresh bool, res *RunResult, seenV map[string]bool)
 			continue
 		}
 		alone := probe(BuildReal(own[i]))
+		// the same calls with the policy put to use between them: what a policy has seen must not matter once it is extended
+		if len(own[i]) >= 2 && own[i][0].M != "ZeroValue" {
+			ub := &Builder{Fresh: fresh}
+			for _, c := range own[i] {
+				ub.Apply(c)
+				if ub.P != nil {
+					probe(ub.P)
+				}
+			}
+			if d := firstDiff(alone, probe(ub.P)); d >= 0 {
+				key := "used-while-built"
+				if !seenV[key] || len(res.Violations) < 5 {
+					seenV[key] = true
+					det := fmt.Sprintf("a policy that sanitised documents between its builder calls behaves differently from the same calls made without uses, on %q", probeDocs[d])
+					hb := []histStep{}
+					for _, c := range own[i] {
+						hb = append(hb, histStep{i, c})
+					}
+					res.Violations = append(res.Violations, ViolationRec{Finding{"C17", key, det}, writeC17Replay(key, det, hb, nil, i, probeDocs[d])})
+				}
+			}
+		}
 		if d := firstDiff(alone, probe(bs[i].P)); d >= 0 {
 			key := "independence-behaviour"
 			if !seenV[key] || len(res.Violations) < 5 {
@@ -610,6 +632,27 @@ func reproC17(path string) int {
 	if err := LoadJSONFile(path, &rf); err != nil {
 		fmt.Fprintln(os.Stderr, err)
 		return 2
+	}
+	if rf.Key == "used-while-built" {
+		r := Recipe{}
+		for _, st := range rf.HistA {
+			r = append(r, st.C)
+		}
+		ub := &Builder{}
+		for _, c := range r {
+			ub.Apply(c)
+			if ub.P != nil {
+				probe(ub.P)
+			}
+		}
+		a, b := BuildReal(r).Sanitize(rf.Probe), ub.P.Sanitize(rf.Probe)
+		fmt.Printf("probe %q\n  built, then used -> %q\n  used while built -> %q\n", rf.Probe, a, b)
+		if a != b {
+			fmt.Printf("VIOLATION property=C17 replay=%s\n  %s\n", path, rf.Detail)
+			return 1
+		}
+		fmt.Println("property holds on this replay")
+		return 0
 	}
 	if strings.HasPrefix(rf.Key, "accumulate:") && len(rf.HistB) == 3 {
 		if det, _ := accumulateCheck(rf.HistB[0].C, rf.HistB[1].C, rf.HistB[2].C); det != "" {
